@@ -20,6 +20,13 @@ REPO = "/repo"
 
 # (property, relative file, old text, new text, substring of the unit expected to fail)
 MUTANTS = [
+    ("C02", "unified_planning/engines/sequential_simulator.py", "            except UPConflictingEffectsException:\n                reason = InapplicabilityReasons.CONFLICTING_EFFECTS\n",
+     "            except UPConflictingEffectsException:\n                pass\n", "full_check"),
+    ("C02", "unified_planning/engines/sequential_simulator.py", "                if not self._se.evaluate(si, new_partial_state).bool_constant_value():", "                if not self._se.evaluate(si, state).bool_constant_value():", "full_check"),
+    ("C02", "unified_planning/engines/sequential_simulator.py", "                    if reason is None:\n                        reason = InapplicabilityReasons.VIOLATES_STATE_INVARIANTS\n",
+     "                    if reason is not None:\n                        reason = InapplicabilityReasons.VIOLATES_STATE_INVARIANTS\n", "full_check"),
+    ("C02", "unified_planning/engines/sequential_simulator.py", "                unsatisfied_conditions.append(c)\n                reason = InapplicabilityReasons.VIOLATES_CONDITIONS\n",
+     "                unsatisfied_conditions.append(c)\n", "full_check"),
     ("C02", "unified_planning/engines/sequential_simulator.py", "        new_state = state.make_child(updated_values)\n        for si in self._state_invariants:\n            if not self._se.evaluate(si, new_state).bool_constant_value():",
      "        new_state = state.make_child(updated_values)\n        for si in self._state_invariants:\n            if not self._se.evaluate(si, state).bool_constant_value():", "apply_unsafe"),
     ("C02", "unified_planning/engines/sequential_simulator.py", "                if fluent is not None:\n                    assert value is not None\n                    updated_values[fluent] = value\n\n        new_state",
